@@ -241,6 +241,11 @@ def spaces(tier, seed):
               bounds={'L': [1, 2, 3], 'qd': qds, 'D': [1, 2, 3], 'dtypes': ['cc', 'rc', 'rr']}),
         Space('density', core.chunked(_density_cases([1, 2, 3], [[0, 1], [0, 0]]), 200), run_case=run_case, sig=sig,
               bounds={'L': [1, 2, 3], 'D': [1, 2]}),
-        Space('local_problems', core.chunked(_local_cases([1, 2, 3, 4], [[0, 1], [1, -1], [0, 0]], [1, 2]), 20), run_case=run_case, sig=sig,
-              bounds={'L': [1, 2, 3, 4], 'qd': qds, 'D_state': [1, 2], 'D_operator': [1, 2]}),
+        Space('local_problems', core.chunked(_local_cases([1, 2, 3], [[0, 1], [1, -1], [0, 0]], [1, 2]), 20), run_case=run_case, sig=sig,
+              bounds={'L': [1, 2, 3], 'qd': qds, 'D_state': [1, 2], 'D_operator': [1, 2]}),
+        Space('local_problems_D3', core.chunked(_local_cases([2, 3], [[0, 1]], [3]), 20), run_case=run_case, sig=sig,
+              bounds={'L': [2, 3], 'qd': [[0, 1]], 'D_state': [3], 'D_operator': [1, 2]}),
+        Space('local_problems_L4', core.chunked(itertools.chain(_local_cases([4], [[0, 1]], [1]), _local_cases([4], [[0, 0]], [1, 2])), 20),
+              run_case=run_case, sig=sig,
+              bounds={'L': [4], 'what': 'qd=[0,1] with D=1 chains (all charge paths); qd=[0,0] with D in {1,2}; operator D in {1,2}'}),
     ]
